@@ -130,7 +130,9 @@ func vClientRequest(allowConn bool) *vClientReq {
 		h.Set("x-piko-forward", "false")
 	}
 	if allowConn && !q.tcp {
-		q.connHdr = []string{"", "close", "x-piko-forward", "x-piko-endpoint"}[v.Choose("connection-header", 4)]
+		// (header names are case-insensitive; the quick tier takes one spelling
+		// of each control header, the thorough tier all of these)
+		q.connHdr = []string{"", "close", "x-piko-forward", "X-Piko-Endpoint", "x-piko-endpoint", "X-PIKO-FORWARD", "keep-alive, x-piko-forward"}[v.Choose("connection-header", v.Param("connvals", 4))]
 		if q.connHdr != "" {
 			h.Set("Connection", q.connHdr)
 		}
@@ -173,7 +175,6 @@ func Harness_C01_settled() {
 	w := entry.vDispatch(q.r)
 	status := vStatuses[len(vStatuses)-1]
 	_ = w
-	v.Class("F6", q.connHdr == "x-piko-forward" || q.connHdr == "x-piko-endpoint")
 
 	n := vCheckDeliveries("C01/settled", ep)
 	v.Assert("C01/settled/at-most-one-delivery", n <= 1)
@@ -219,7 +220,6 @@ func Harness_C06_hops() {
 	entry.vDispatch(q.r)
 	status := vStatuses[len(vStatuses)-1]
 
-	v.Class("F6", q.connHdr == "x-piko-forward" || q.connHdr == "x-piko-endpoint")
 	v.Assert("C06/at-most-one-hop", vHops <= 1)
 	v.Assert("C06/at-most-two-handler-runs", vHandlerRuns <= 2)
 	n := vCheckDeliveries("C06", ep)
